@@ -154,7 +154,7 @@ def newton_raphson(net, funct, mode, solver_vars, tols, pit_names, iter_name):
             net, niter, residual_norm, nonlinear_method, errors=errors, tols=tols, tol_res=tol_res,
             vals_old=vals_old, solver_vars=solver_vars, pit_names=pit_names, filtered=filtered
         )
-        _verif_hooks.emit("iter", stage=mode, niter=niter, errors=[errors[v][niter] for v in solver_vars],
+        _verif_hooks.emit("iter", stage=mode, niter=niter, vars=list(solver_vars), errors=[errors[v][niter] for v in solver_vars],
                           tols=list(tols), residual=residual_norm, tol_res=tol_res, method=nonlinear_method,
                           alpha_used=_vh_alpha, alpha_next=get_net_option(net, "alpha") if _verif_hooks.ENABLED else None,
                           converged=bool(net.converged))
